@@ -631,6 +631,7 @@ func checkC07(c *Ctx) {
 	ruleEscSet(c, r.h)
 	ruleVocab(c, r.h)
 	ruleCharRefAlphabet(c)
+	ruleSpecBoundsFor(c, "C07")
 	ruleWalkWiring(c)
 	c.Assume("html.EscapeString and the copy arithmetic of escapeHTML are trusted as sanitisers")
 	c.Assume("HTX-RAW (b),(c): the parser restricts the content of CharacterReference spans (recognised references only; see C15 isHex) and SoftLineBreak spans (line-ending bytes)")
